@@ -73,6 +73,36 @@ def _script_from_trace(trace):
     return steps
 
 
+def _selftest(ctx, path):
+    """The binding binds: a recorded stream with one corrupted field / one removed line must be rejected."""
+    lines = open(path).read().splitlines()
+    resets = [i for i, l in enumerate(lines) if '"ev":"reset"' in l]
+    out = {}
+    for name in ("skip_height", "drop_retrieval"):
+        mod, done = [], False
+        for l in lines[:resets[min(400, len(resets) - 1)]]:
+            e = json.loads(l)
+            if not done and name == "skip_height" and e.get("ev") == "recv" and e.get("h", 0) >= 2:
+                e["h"] += 1
+                done = True
+            elif not done and name == "drop_retrieval" and e.get("ev") == "att" and e.get("ok"):
+                done = True
+                continue
+            mod.append(json.dumps(e, separators=(",", ":")))
+        p = os.path.join(ctx.work, "selftest_%s.ndjson" % name)
+        open(p, "w").write("\n".join(mod) + "\n")
+        cfg = os.path.join(ctx.work, "selftest_%s.cfg" % name)
+        open(cfg, "w").write(TRACE_CFG % {"path": p})
+        r = vlib.run_tlc(os.path.join(vlib.VERIF, "spec", "blob", "BlobSubTrace.tla"), cfg, ctx.work, workers=1,
+                         timeout=600, deadlock=False, heap="2g")
+        rejected = done and (r.violated is not None or not r.ok)
+        out[name] = {"mutated": done, "rejected": rejected}
+        ctx.log("selftest %s: mutated=%s rejected=%s (violated=%s)" % (name, done, rejected, r.violated))
+        if done and not rejected:
+            ctx.inconclusive("selftest: BlobSubTrace.tla accepted a recorded stream with %s -- the binding does not bind" % name)
+    ctx.cover(selftest=out)
+
+
 def run(ctx):
     quick = ctx.quick
     ctx.assume("the header feed is an unbuffered channel delivering consecutive heights (as nodebuilder/header Service.Subscribe does)")
@@ -168,6 +198,8 @@ def run(ctx):
     elif t.violated:
         ctx.inconclusive("an invariant (%s) fails on a state matched to a recorded stream although the monitors on the "
                          "observed behaviour did not fire (log %s)" % (t.violated, t.log_path))
+    if not quick:
+        _selftest(ctx, path)
     try:
         with open(path) as f:
             ctx.sample({"trace_file": os.path.basename(path), "first_lines": [json.loads(next(f)) for _ in range(14)]})
